@@ -776,10 +776,12 @@ def str_method(ex, s, name, args, kwargs):
         return SV(str_splitlines(t), SEQ_STR)
     if name == "isspace":
         return SV(str_isspace(t), BOOL)
-    if name == "startswith" and len(args) == 1:
-        return SV(z3.PrefixOf(term(args[0], STR), t), BOOL)
-    if name == "endswith" and len(args) == 1:
-        return SV(z3.SuffixOf(term(args[0], STR), t), BOOL)
+    if name in ("startswith", "endswith") and len(args) == 1:
+        f = z3.PrefixOf if name == "startswith" else z3.SuffixOf
+        if isinstance(args[0], (tuple, list)):          # a tuple of alternatives
+            alts = [f(term(a, STR), t) for a in args[0]]
+            return SV(z3.Or(alts) if alts else z3.BoolVal(False), BOOL)
+        return SV(f(term(args[0], STR), t), BOOL)
     if name == "find" and len(args) == 1:
         return SV(z3.IndexOf(t, term(args[0], STR), 0), INT)
     if name == "index" and len(args) == 1:
